@@ -313,7 +313,7 @@ def run(only=None):
                      "families x queue policies; every step recorded and validated by TLC against E2E_Trace (rules: exactly once, only recipients, original "
                      "content / sender / group, receipts, re-acknowledged duplicates, retry after corruption, only ciphertext on the wire, completeness at "
                      "quiescence); distinct by script")
-    for cfg in (("MC_E2E.cfg", "MC_E2E_group.cfg") + (("MC_E2E_thorough.cfg",) if thorough else ())):
+    for cfg in (("MC_E2E.cfg", "MC_E2E_group.cfg", "MC_E2E_reorder.cfg") + (("MC_E2E_thorough.cfg",) if thorough else ())):
         res = core.must_clean(core.tlc("E2E", cfg, r.scratch, workers=16, timeout=6000), cfg)
         r.add_tlc(res)
     bad = core.tlc("E2E", "MC_E2E_asread.cfg", r.scratch, workers=8)
